@@ -857,6 +857,11 @@ def run(ck):
         "queried jobs by slurmscriptadapter.py: job-name = step.name.replace(' ', '_'). Non-well-formed texts are "
         "covered by the correspondence run only (exotic stream) and by C16_rc / C16_rc_slurm.")
     ck.cov["input_distribution"] = hist
+    try:   # Flux job-list query through the real check_jobs over a fake flux-core (harness/props/c16_flux.py)
+        __import__("harness.props.c16_flux", fromlist=["run_flux"]).run_flux(ck)
+    except Exception:
+        import traceback
+        ck.mismatch("the flux status-query part of the check could not run to completion", None, traceback.format_exc()[-3000:])
     return ck.finish(search=lambda: search(ck, impl, M))
 
 
